@@ -343,6 +343,7 @@ func c16Explore(c *Ctx, src c16Source, bound int, echoice bool) (nontrivial bool
 			}
 			if first {
 				base[e.name] = append([]byte(nil), out...)
+				c.Outcome(e.name + "|" + string(out))
 				return
 			}
 			if !bytes.Equal(base[e.name], out) {
